@@ -9,10 +9,17 @@ BAD_TEXTS = {"#bad:dimension": "3d", "#bad:dangling-and": "screen and", "#bad:lo
 
 
 def qtext(q, k=0):
-    return BAD_TEXTS.get(q, q)
+    """text of a query; the keyword 'and' in other spellings the grammar allows (case-insensitive, white space optional before '(')"""
+    t = BAD_TEXTS.get(q, q)
+    if q not in BAD_TEXTS and " and (" in t:
+        t = t.replace(" and (", [" and (", " AND(", " And (", " and("][k % 4])
+    return t
 
 
 def norm(t):
+    # a comment next to a query is not part of the query (which neighbour a comment in a prelude is kept with is not something the
+    # DOM distinguishes)
+    t = re.sub(r"/\*.*?\*/", " ", t)
     return re.sub(r"\s+", " ", t.strip()).lower()
 
 
@@ -42,11 +49,37 @@ def project(ml, owner, rule):
          "itemPast": "none" if (out == "ok" and past is None) else (norm(past) if out == "ok" else out),
          "text": norm(text), "reparsed": reparse(text), "owner": owner, "ownertext": "none"}
     if rule is not None:
-        o["ownertext"] = norm(rule.media.mediaText)
+        # what the OWNER writes for its list: read back from the rule's own serialisation
+        def owner_media():
+            r2 = cssutils.parseString(rule.cssText).cssRules[0]
+            return r2.media.mediaText
+        out2, mt = outcome(owner_media)
+        cssutils.log.raiseExceptions = RAISE[0]
+        o["ownertext"] = norm(mt) if out2 == "ok" else "#" + out2
+        if norm(rule.media.mediaText) != o["text"]:
+            o["ownertext"] = "#rule.media is another list: " + norm(rule.media.mediaText)
     return o
 
 
+RAISE = [True]
+
+
 def make(owner):
+    if owner == "import-reassigned":
+        # the rule's list is assigned again with the text it already has (a new list object), then edited in place through the rule
+        sheet = cssutils.parseString('@import "x.css" all;')
+        rule = sheet.cssRules[0]
+        rule.media = rule.media.mediaText
+        ml = rule.media
+        ml.deleteMedium("all")
+        return ml, rule
+    if owner == "media-reassigned":
+        sheet = cssutils.parseString("@media all { a { left: 0 } }")
+        rule = sheet.cssRules[0]
+        rule.media = MediaList(mediaText=rule.media.mediaText)
+        ml = rule.media
+        ml.deleteMedium("all")
+        return ml, rule
     if owner == "media":
         sheet = cssutils.parseString("@media all { a { left: 0 } }")
         rule = sheet.cssRules[0]
@@ -67,7 +100,8 @@ def apply(ml, a, k):
     if op == "settext":
         t = ", ".join(qtext(q, k) for q in a["qs"])
         if a.get("comment"):
-            t = "/*c*/ " + t
+            # in front of the list, or between two queries (directly after a comma)
+            t = "/*c*/ " + t if (k % 2 == 0 or ", " not in t) else t.replace(", ", ", /*c*/ ", 1)
         return outcome(lambda: setattr(ml, "mediaText", t))
     if op == "append":
         return outcome(lambda: ml.appendMedium(qtext(a["q"], k)))
@@ -83,7 +117,7 @@ def run_trace(item):
     owner = item.get("owner", "none")
     mode = item.get("mode", "raise")
     ml, rule = make(owner)
-    cssutils.log.raiseExceptions = (mode == "raise")
+    cssutils.log.raiseExceptions = RAISE[0] = (mode == "raise")
     tr = {"id": item["id"], "owner": owner, "init": project(ml, owner, rule), "steps": []}
     for k, a in enumerate(item["actions"]):
         out, ret = apply(ml, a, k + item["id"])
